@@ -30,7 +30,7 @@ SCRIPTS = {
 }
 TEXTS = ["note", "a -- b", "---- sec ----", "create table x (y int);", "a, b (c) ; d", "CREATE ALTER DROP", "select * from t where a = 1", "",
          "ALTER", "x ; y ;", "(", "GO"]
-MARKED_TEXTS = ["/* -- x */", "a /* b", "x */ y", "# z", "-- /* x"]
+MARKED_TEXTS = ["/* -- x */", "a /* b", "x */ y", "# z", "-- /* x", "a /* b */"]
 WHOLE = {"--": lambda t: ["-- %s" % t], "--nosp": lambda t: ["--%s" % t], "#": lambda t: ["# %s" % t], "b1": lambda t: ["/* %s */" % t],
          "b1nosp": lambda t: ["/*%s*/" % t], "b2": lambda t: ["/* %s" % t, "*/"], "b3": lambda t: ["/*", " %s" % t, "*/"],
          "b3t": lambda t: ["/* %s" % t, "%s" % t, "%s */" % t], "ind--": lambda t: ["    -- %s" % t], "indb1": lambda t: ["    /* %s */" % t]}
@@ -87,6 +87,10 @@ def gen_cases(tier):
                 for st in ("--", "#", "b1", "b2"):
                     for pos in range(len(L) + 1):
                         cases.append({"script": sn, "ins": [["whole", st, 100 + mi, pos]]})
+                # ... and as the text of a trailing comment
+                for st in ("t--", "t/*"):
+                    for pos in range(len(L)):
+                        cases.append({"script": sn, "ins": [["trail", st, 100 + mi, pos]]})
     if tier == "thorough":
         for sn in SCRIPTS:
             L = script_lines(sn)
@@ -123,9 +127,16 @@ def build(case):
         res.extend(pre[i])
         if i < len(lines):
             res.append(lines[i] + trail.get(i, ""))
+    open_dash = {}
     for kind, st, ti, pos in sorted(case["ins"], key=lambda x: (x[3], 0 if x[0] == "whole" else 1)):
         t = text_of(ti)
+        if kind == "trail" and pos in open_dash:
+            # everything after a trailing '--' on the same line is the text of that one '--' comment
+            inserted[open_dash[pos]] += TRAIL[st](t)
+            continue
         inserted.append(" ".join(WHOLE[st](t)) if kind == "whole" else TRAIL[st](t))
+        if kind == "trail" and st.startswith("t--"):
+            open_dash[pos] = len(inserted) - 1
     return "\n".join(res), inserted
 
 
@@ -137,10 +148,22 @@ def features(case):
             f.append("text:other-marker")
         if "--" in t and not st.endswith(("--", "--nosp")):
             f.append("text:dashdash-in-non-dash-comment")
+        if kind == "trail" and st.startswith("t--") and ("/*" in t or "*/" in t):
+            f.append("trail-dashdash:block-marker-in-text")
         if kind == "trail":
             line = script_lines(case["script"])[pos]
             if "'" in line:
                 f.append("trail:after-line-with-literal")
+    # two trailing comments on one line: what follows the first '--' is the text of that '--' comment
+    tr = {}
+    for kind, st, ti, pos in case["ins"]:
+        if kind == "trail":
+            tr.setdefault(pos, []).append(st)
+    for pos, sts in tr.items():
+        if len(sts) >= 2 and sts[0].startswith("t--") and any(x.startswith("t/*") for x in sts[1:]):
+            f.append("trail-dashdash:block-marker-in-text")
+        if len(sts) >= 2 and sts[0].startswith("t/*") and any(x.startswith("t--") for x in sts[1:]):
+            f.append("trail:block-then-dashdash")
     return sorted(set(f))
 
 
